@@ -153,7 +153,19 @@ SYN = {
 }
 
 
-def synthetic_tuples(func, cap=300):
+def _int_alphabet(name, year):
+    """Integer arguments by what their name says they are: calendar years around the rule's date and the cohorts statutes single out,
+    months, days, ages, counts."""
+    if "jahr" in name and "jahre" not in name:  # geburtsjahr, jahr_renteneintr, ... (not 'years of ...')
+        return sorted({year - 67, year - 40, 1947, 1952, 1964, 1990, 2006, 2007, year - 18, year - 3, year - 1, year, year + 1})
+    if "monat" in name and not name.startswith(("m_", "monate")):
+        return [1, 6, 12]
+    if name.endswith("tag"):
+        return [1, 15, 31]
+    return SYN[int]
+
+
+def synthetic_tuples(func, cap=300, year=2020):
     """Base tuple, all single and all pairwise deviations over typed alphabets (k <= 2), capped."""
     import itertools
 
@@ -162,7 +174,9 @@ def synthetic_tuples(func, cap=300):
     alph = []
     for a in args:
         t = ann.get(a)
-        if t in SYN:
+        if t is int:
+            alph.append(_int_alphabet(a, year))
+        elif t in SYN:
             alph.append(SYN[t])
         elif t is np.datetime64 or "datetime" in str(t):
             alph.append([np.datetime64("1950-03-01"), np.datetime64("2001-12-31")])
@@ -232,7 +246,7 @@ def _synthetic_one(out, name, func, info, d, cap):
         except Exception:  # noqa: BLE001
             out.count("synthetic_partial_failed")
             return
-        args, T = synthetic_tuples(func)
+        args, T = synthetic_tuples(func, year=d.year)
         if not args:
             return
         exp = {}
